@@ -526,7 +526,8 @@ def _into(it, args, dty, func):
             return v
     # crate From impls: <Dst as From<Src>>::from
     src = runtime_type(v)
-    if "::" in d and not d.startswith(("std::", "core::", "alloc::", "bytes::")):
+    src_is_crate = bool(src) and "::" in src and not src.startswith(("std::", "core::", "alloc::", "bytes::", "{"))
+    if ("::" in d and not d.startswith(("std::", "core::", "alloc::", "bytes::"))) or src_is_crate:
         for name in it.prog.methods.get("from", []):
             tag = re.search(r"<(impl at [^>]*)>", name).group(1)
             tr, ty = it.prog.impl_info(tag)
@@ -1000,6 +1001,8 @@ def _iter_collect(it, args, dty, func):
     d = strip_generics(dty)
     if d.endswith("::Vec"):
         return Seq("vec", items, elem_type(dty))
+    if d.endswith("VecDeque"):
+        return Seq("vecdeque", items, "?")
     raise Unsupported("collect into " + dty)
 
 
@@ -2178,3 +2181,100 @@ def _notify_new(it, args, dty, func):
 @model("tokio::sync::Notify::notify_waiters", "tokio::sync::Notify::notify_one")
 def _notify_waiters(it, args, dty, func):
     return UNIT
+
+
+# --- fibre channels, sequential semantics (bounded FIFOs); interleavings are cfa-bmc's job ------------
+class _ChanM:
+    __slots__ = ("items", "cap", "closed")
+
+    def __init__(self, cap):
+        self.items, self.cap, self.closed = [], cap, False
+
+
+@model("fibre::spsc::bounded_async", "fibre::mpmc_v2::bounded_async", "fibre::mpmc::bounded_async")
+def _chan_new(it, args, dty, func):
+    ch = _ChanM(concretize(it, args[0], 1 << 20, "channel capacity"))
+    return Agg("tuple", [Agg("{chan.tx}", [ch]), Agg("{chan.rx}", [ch])])
+
+
+def _chan(v):
+    v = _deref(v)
+    return v.f[0]
+
+
+@model("fibre::spsc::BoundedAsyncSender::try_send", "fibre::mpmc_v2::AsyncSender::try_send")
+def _chan_try_send(it, args, dty, func):
+    ch = _chan(args[0])
+    if ch.closed:
+        return err(Enum("fibre::TrySendError", 1, "Closed", [args[1]]))
+    if len(ch.items) >= ch.cap:
+        return err(Enum("fibre::TrySendError", 0, "Full", [args[1]]))
+    ch.items.append(args[1])
+    return ok(UNIT)
+
+
+@model("fibre::spsc::BoundedAsyncReceiver::try_recv", "fibre::mpmc_v2::AsyncReceiver::try_recv")
+def _chan_try_recv(it, args, dty, func):
+    ch = _chan(args[0])
+    if ch.items:
+        return ok(ch.items.pop(0))
+    return err(Enum("fibre::TryRecvError", 1 if ch.closed else 0, "Disconnected" if ch.closed else "Empty", []))
+
+
+@model("fibre::spsc::BoundedAsyncReceiver::len", "fibre::spsc::BoundedAsyncSender::len")
+def _chan_len(it, args, dty, func):
+    return len(_chan(args[0]).items)
+
+
+@model("fibre::spsc::BoundedAsyncReceiver::capacity", "fibre::spsc::BoundedAsyncSender::capacity")
+def _chan_cap(it, args, dty, func):
+    return _chan(args[0]).cap
+
+
+@model("fibre::mpmc_v2::AsyncSender::close", "fibre::mpmc_v2::AsyncReceiver::close")
+def _chan_close(it, args, dty, func):
+    _chan(args[0]).closed = True
+    return ok(UNIT)
+
+
+@trait_model(r"^fibre::", "Clone", "clone")
+def _chan_clone(it, args, dty, func):
+    return _deref(args[0])
+
+
+@model("std::sync::Arc::downgrade")
+def _arc_downgrade(it, args, dty, func):
+    v = args[0]
+    while isinstance(v, Ref) and not isinstance(v, BoxV):
+        v = v.load()
+    return v
+
+
+@model("std::sync::Weak::upgrade")
+def _weak_upgrade(it, args, dty, func):
+    v = args[0]
+    while isinstance(v, Ref) and not isinstance(v, BoxV):
+        v = v.load()
+    # liveness of the pointee is tracked by the registry that owns it (pipes map): a slot removed from the map
+    # is marked dead by the `dead` flag on its cell
+    if getattr(v.cell, "name", "") == "dead":
+        return none()
+    return some(v)
+
+
+@model("std::thread::yield_now")
+def _yield_now(it, args, dty, func):
+    return UNIT
+
+
+@model("std::boxed::Box::new_uninit")
+def _box_new_uninit(it, args, dty, func):
+    # Box<MaybeUninit<T>>: MaybeUninit { uninit: (), value: ManuallyDrop(MaybeDangling(T)) } as laid out in the MIR of vec![..]
+    inner = Agg("std::mem::MaybeUninit", [UNIT, Agg("std::mem::ManuallyDrop", [Agg("std::mem::MaybeDangling", [None])])])
+    return BoxV(Cell(inner, "heap"), ())
+
+
+@model("std::boxed::box_assume_init_into_vec_unsafe")
+def _box_into_vec(it, args, dty, func):
+    arr = args[0].load().f[1].f[0].f[0]
+    return Seq("vec", list(arr.f), getattr(arr, "elem_ty", "?"))
